@@ -231,11 +231,57 @@ def tie_module_ignore(ctx: Ctx) -> None:
         classify.module_ignore_case(ctx, src, desc, m, obs, reported)
 
 
+# ================================================================================ (d'') skipped lines
+def tie_skipped(ctx: Ctx) -> None:
+    """Lines of statically unreachable blocks: the model's inclusive range [line, end_line] vs the default front end's
+    `skipped_lines` (SemanticAnalyzerPreAnalysis.visit_block), and vs the native front end, which delivers no
+    `ignored_lines` entry on such lines (ignored − skipped must be the same set for both)."""
+    rng = ctx.rng
+    cases = []
+    for _ in range(ctx.pick(120, 1500)):
+        ver = rng.choice(VERSIONS)
+        src, desc = families.gen_static_reachability(rng, ver)
+        o = families.real_skipped(src, ver)
+        if o is not None:
+            cases.append((src, ver, o))
+    mod = model(ctx, [json.dumps(["skip", o["blocks"]]) for _, _, o in cases])
+    reported = False
+    for (src, ver, o), m in zip(cases, mod):
+        want = sorted(set(m))
+        ctx.case(("skip", src, ver), nontrivial=bool(o["blocks"]))
+        ctx.dist("unreachable_blocks_per_program", str(min(len(o["blocks"]), 6)))
+        ctx.count("traces_validated_against_impl", 2)
+        eff_d = [l for l in o["ignored"] if l not in o["skipped"]]
+        eff_n = None if o["native_ignored"] is None else [l for l in o["native_ignored"] if l not in o["native_skipped"]]
+        if o["skipped"] == want and eff_n == [l for l in o["ignored"] if l not in want]:
+            continue
+        ctx.count("disagreements_checked")
+        if reported:
+            continue
+        reported = True
+        detail = {"source": src, "version": list(ver), "flags": {"warn_unused_ignores": True}, "observed": o, "model_skipped": want}
+        # search: the property's oracle — diagnostics of the two front ends with --warn-unused-ignores
+        d, n = classify._diag_pair(ctx, src, {"warn_unused_ignores": True}, ver)
+        if d != n:
+            od = [x for x in d[1] if x not in n[1]]
+            on = [x for x in n[1] if x not in d[1]]
+            ctx.report({"class": "skipped-lines-of-unreachable-block-differ-between-front-ends"},
+                       "unreachable blocks %r: the default front end skips lines %r (the rule: every line of [line, end_line], %r), its "
+                       "effective ignores are %r, the native front end's %r; diagnostics differ: only default %r, only native %r"
+                       % (o["blocks"], o["skipped"], want, eff_d, eff_n, od[:3], on[:3]), detail)
+        else:
+            ctx.violation("skipped-lines correspondence broken for blocks %r: default skipped %r, model %r, effective ignores default %r native %r"
+                          % (o["blocks"], o["skipped"], want, eff_d, eff_n),
+                          {"broken": "correspondence Driver/C14 `skip` vs semanal_pass1.SemanticAnalyzerPreAnalysis.visit_block "
+                                     "(theorem skipped_lines_inclusive)", **detail}, found_input=False)
+
+
 # ================================================================================ (e) the differential search
 POOL_SLICES = 8
 POOL_TAG = "C14-fixed-pool-v1"      # corpus / generated part; changing the generator, the corruptor or this tag changes the pool: re-verify every slice
 FAMILY_TAG = "C14-fixed-pool-v2"    # the targeted families (type-ignore placement, elided parameter names) added in v2
-POOL_VERSION = "v2"
+REACH_TAG = "C14-fixed-pool-v3"     # the static-reachability family added in v3
+POOL_VERSION = "v3"
 
 
 def programs(ctx: Ctx):
@@ -297,10 +343,17 @@ def programs(ctx: Ctx):
             for kind, new in corpus.corrupt(src, r, 2, skip_lines=skip):
                 tasks.append((("gen-%d-%d" % (sl, i), kind, ver), new, ver, "generated-corrupted"))
         ctx.coverage["differential_pool"] = "fixed pool %s (corpus/generated part: %s; families: %s), slice %d of %d (VERIF_SEED %% %d)" \
-            % (POOL_VERSION, POOL_TAG, FAMILY_TAG, sl, POOL_SLICES, POOL_SLICES)
+            % (POOL_VERSION, POOL_TAG, FAMILY_TAG + " + " + REACH_TAG, sl, POOL_SLICES, POOL_SLICES)
     # the two targeted families (valid programs; fixed per slice in the quick tier, seed-driven otherwise)
     import random as _random
     n_fam = (14, 10) if not explore else ctx.pick((14, 10), (400, 300))
+    for i in range(26 if (not explore or ctx.quick()) else 600):
+        r = ctx.rng if explore else _random.Random("%s:reach:%d:%d" % (REACH_TAG, ctx.seed % POOL_SLICES, i))
+        ver = r.choice(VERSIONS)
+        src, desc = families.gen_static_reachability(r, ver)
+        for pos in desc["positions"]:
+            ctx.dist("family_static_reachability_position", pos)
+        tasks.append((("reach-%d" % i, "family", ver), src, ver, "family:static-reachability"))
     for i in range(n_fam[0]):
         r = ctx.rng if explore else _random.Random("%s:placement:%d:%d" % (FAMILY_TAG, ctx.seed % POOL_SLICES, i))
         ver = r.choice(VERSIONS)
@@ -383,6 +436,7 @@ def main(ctx: Ctx) -> None:
     tie_tags(ctx)
     tie_cfg(ctx)
     tie_module_ignore(ctx)
+    tie_skipped(ctx)
     differential(ctx, base)
     if not proved and not ctx.violations:
         ctx.violation("Lean development for C14 no longer builds", {"broken": ctx.broken_ties}, found_input=False)
